@@ -68,7 +68,7 @@ class AssetInformation:
         )
         self._global_asset_id: Optional[base.Identifier] = global_asset_id
         self._validate_global_asset_id(global_asset_id)
-        self._validate_aasd_131(global_asset_id, bool(specific_asset_id))
+        self._validate_aasd_131(global_asset_id, len(self._specific_asset_id) > 0)
 
     @property
     def global_asset_id(self) -> Optional[base.Identifier]:
